@@ -486,7 +486,10 @@ def _enumerate_meta(args):
             lo, hi = c["min"], c["max"]
             if c["kind"] == "dep":
                 lo, hi = next(((a, b) for uu, a, b in c["ranges"] if uu == u), c["defrange"])
-            for via in ("meta-built", "meta-loaded", "meta-behind-stale"):
+            vias = ("meta-built", "meta-loaded", "meta-behind-stale")
+            if c["kind"] == "dep" or c["min"] < 0:
+                vias += ("meta-padded-slot", "meta-reattached")
+            for via in vias:
                 try:
                     mm = api.m.MetaModule()
                     emb = api.Project()
@@ -497,14 +500,45 @@ def _enumerate_meta(args):
                     mm.project = emb
                     emb.metamodule = mm
                     k_ = 1 if via == "meta-behind-stale" else 0
-                    if k_:
-                        mm.mappings.values[0].module, mm.mappings.values[0].controller = 1, 0
-                    mm.mappings.values[k_].module = tm.index
-                    mm.mappings.values[k_].controller = i - 1
-                    mm.user_defined_controllers = k_ + 1
-                    mm.update_user_defined_controllers()
-                    if via != "meta-built":
-                        mm = api.read_sunvox_file(io.BytesIO(api.Synth(mm).read())).module
+                    if via in ("meta-padded-slot", "meta-reattached"):
+                        amp = emb.new_module(api.m.Amplifier)
+                        mm.mappings.values[0].module, mm.mappings.values[0].controller = amp.index, 0
+                    if via == "meta-padded-slot":
+                        # a file with 27 mappings (as older SunVox versions wrote); two of the slots the reader filled in are then
+                        # pointed, in place, at two different targets - each user-defined controller takes the range of ITS target
+                        mm.user_defined_controllers = 1
+                        mm.update_user_defined_controllers()
+                        from . import tlv
+                        cs, chnm_ = [], None
+                        for cid, payload in tlv.split(api.Synth(mm).read()):
+                            if cid == b"CHNM":
+                                chnm_ = int.from_bytes(payload, "little")
+                            if cid == b"CHDT" and chnm_ == 1:
+                                payload = payload[:27 * 4]
+                            cs.append((cid, payload))
+                        mm = api.read_sunvox_file(io.BytesIO(tlv.join(cs))).module
+                        mm.user_defined_controllers = 29
+                        mm.mappings.values[27].module, mm.mappings.values[27].controller = 1, i - 1
+                        mm.mappings.values[28].module, mm.mappings.values[28].controller = 2, 0
+                        mm.update_user_defined_controllers()
+                        k_ = 27
+                    elif via == "meta-reattached":
+                        # the number of user-defined controllers lowered and raised again: the re-attached controller is the one it was
+                        mm.mappings.values[1].module, mm.mappings.values[1].controller = tm.index, i - 1
+                        mm.user_defined_controllers = 2
+                        mm.update_user_defined_controllers()
+                        mm.user_defined_controllers = 1
+                        mm.user_defined_controllers = 2
+                        k_ = 1
+                    else:
+                        if k_:
+                            mm.mappings.values[0].module, mm.mappings.values[0].controller = 1, 0
+                        mm.mappings.values[k_].module = tm.index
+                        mm.mappings.values[k_].controller = i - 1
+                        mm.user_defined_controllers = k_ + 1
+                        mm.update_user_defined_controllers()
+                        if via != "meta-built":
+                            mm = api.read_sunvox_file(io.BytesIO(api.Synth(mm).read())).module
                     name = "user_defined_%d" % (k_ + 1)
                     ctl_obj = type(mm).controllers[name]
                 except Exception:
